@@ -50,7 +50,11 @@ pub fn tpath_from_json(v: &Value) -> TPath {
 }
 
 /// member names of the valid stream: empty, numeric-looking, non-ASCII, near-reserved, sibling prefixes
-pub const KEYS: &[&str] = &["a", "b", "zz", "0", "1", "10", "", "A", "é", "_s", "x y", "ab", "a0", "sd", "..", "a/b", "m~n", "~1", "/", "_sdk", "_sd_", "....", "...x", "_SD", "cnf2"];
+pub const KEYS: &[&str] = &["a", "b", "zz", "0", "1", "10", "", "A", "é", "_s", "x y", "ab", "a0", "sd", "..", "a/b", "m~n", "~1", "/", "_sdk", "_sd_", "....", "...x", "_SD", "cnf2",
+    // characters outside the Basic Multilingual Plane (four UTF-8 bytes, a surrogate pair when escaped)
+    "k\u{1F600}", "\u{1D11E}",
+    // a sibling's name continued by a character that sorts below '/', and one that sorts above it
+    "a b", "a-b", "a.b", "a#", "a:b"];
 
 fn scalar(r: &mut Rng) -> Value {
     match r.below(9) {
@@ -61,7 +65,7 @@ fn scalar(r: &mut Rng) -> Value {
         4 => json!(1.5),
         5 => json!(-7),
         6 => json!(""),
-        7 => json!(*r.pick(&["s", "t", "é~/", "_sd", "...", "x\"y\\"])),
+        7 => json!(*r.pick(&["s", "t", "é~/", "_sd", "...", "x\"y\\", "\u{1F389} party \u{20000}", "a?b>c~d", "\u{a0}\u{7ff}\u{800}\u{fffd}"])),
         _ => json!(format!("v{}", r.below(4))),
     }
 }
@@ -78,7 +82,8 @@ pub fn gen_value(r: &mut Rng, depth: u32, width: usize) -> Value {
             let mut o = gen_object(r, depth - 1, width, 0);
             // below the top level _sd_alg is an ordinary member name
             if r.chance(1, 12) {
-                let v = gen_value(r, depth.saturating_sub(2), width);
+                // ... whatever its value: arbitrary JSON, or a string that happens to name a digest algorithm
+                let v = if r.chance(1, 2) { json!(*r.pick(&["sha-384", "sha-512", "sha-256", "md5"])) } else { gen_value(r, depth.saturating_sub(2), width) };
                 o.as_object_mut().unwrap().insert("_sd_alg".to_string(), v);
             }
             o
